@@ -549,6 +549,7 @@ func newKernel(cfg Config) *Kernel {
 		objIDs: map[uint64]int{}, access: map[string]int{}, hash: 1469598103934665603,
 		done: make(chan struct{})}
 	k.res.FaultsFired = map[string]int{}
+	k.res.FaultHits = map[int]int{}
 	k.res.Probes = map[string]int{}
 	return k
 }
